@@ -46,6 +46,10 @@ pub struct PortCase {
     /// with `inflate`: the user also takes a tiny debt (native units) in the inflated bank
     #[serde(default)]
     pub tiny_debt: u64,
+    /// number of banks in which the user opens a position and empties it again with a plain withdraw (the slot stays
+    /// open with zero shares): such a slot holds nothing and must not influence any valuation (e-mode reconciliation!)
+    #[serde(default)]
+    pub emptied: u8,
 }
 
 pub fn c04_bank_strategy_pub() -> impl Strategy<Value = BankSpec> {
@@ -55,7 +59,9 @@ pub fn c04_bank_strategy_pub() -> impl Strategy<Value = BankSpec> {
 fn c04_bank_strategy() -> impl Strategy<Value = BankSpec> {
     (
         (prop_oneof![4 => Just(6u8), 2 => Just(9u8), 2 => 0u8..=12], 0u8..3, 0u16..500, prop_oneof![Just(0u64), 1u64..100_000]),
-        (0u32..=1_000_000, 0u32..=600_000, 0u32..600_000, 0u32..600_000, prop::bool::weighted(0.12)),
+        // the bank's own initial asset weight: mass on the boundaries of the accepted region (0: the collateral only
+        // counts through an e-mode entry; 1: no haircut)
+        (prop_oneof![2 => Just(0u32), 1 => Just(1_000_000u32), 12 => 0u32..=1_000_000], prop_oneof![1 => Just(0u32), 6 => 0u32..=600_000], 0u32..600_000, 0u32..600_000, prop::bool::weighted(0.12)),
         prop_oneof![3 => Just(0u64), 2 => 1u64..5_000],
         (1u8..3, 1_000i64..500_000_000, prop_oneof![4 => Just(-6i32), 2 => -8i32..=-3], prop_oneof![2 => Just(0u16), 3 => 1u16..300, 1 => 300u16..460], 800u16..1250, prop_oneof![3 => Just(0u16), 2 => 1u16..400]),
         prop::bool::weighted(0.25),
@@ -129,9 +135,9 @@ pub fn case_strategy(max_banks: usize) -> impl Strategy<Value = PortCase> {
         prop::bool::weighted(0.3),
         // staked world: every bank is SOL-tagged (borrowable) or a staked-collateral bank (collateral only)
         (prop::bool::weighted(0.12), prop::collection::vec((1_000_000_000u64..2_000_000_000_000_000, 500u32..3000, any::<bool>()), 16)),
-        (prop_oneof![5 => Just(0u8), 1 => 1u8..3, 1 => 3u8..6], prop_oneof![1 => Just(0u64), 2 => 1u64..1000, 2 => 1000u64..10_000_000]),
+        (prop_oneof![5 => Just(0u8), 1 => 1u8..3, 1 => 3u8..6], prop_oneof![1 => Just(0u64), 2 => 1u64..1000, 2 => 1000u64..10_000_000], prop_oneof![3 => Just(0u8), 1 => Just(1u8), 1 => Just(2u8)]),
     )
-        .prop_map(|(mut banks, deps, bors, ro, stale, (probe_kind, probe_bank, wait), fracs, ro_on, (staked_world, pools), (inflate, tiny_debt))| {
+        .prop_map(|(mut banks, deps, bors, ro, stale, (probe_kind, probe_bank, wait), fracs, ro_on, (staked_world, pools), (inflate, tiny_debt, emptied))| {
             let inflate = if staked_world { 0 } else { inflate };
             if inflate > 0 {
                 let ib = idx(probe_bank, banks.len());
@@ -169,6 +175,7 @@ pub fn case_strategy(max_banks: usize) -> impl Strategy<Value = PortCase> {
             PortCase {
                 inflate,
                 tiny_debt,
+                emptied,
                 spec,
                 deposits: deps.into_iter().map(|(b, amt)| Pos { b, amt }).collect(),
                 borrows: bors.into_iter().map(|(b, amt)| Pos { b, amt }).collect(),
@@ -330,6 +337,19 @@ pub fn run_case(c: &PortCase, stats: &mut CaseStats) -> Result<(), (String, Stri
     if stats.inflated && c.tiny_debt > 0 && !dep_banks.contains(&ib) {
         let ix = w.ix_borrow(acct, usr.auth, ib, usr.tokens[ib], c.tiny_debt);
         let _ = w.vm.exec(&ix);
+    }
+    // emptied-but-open slots: deposit and plain-withdraw the same amount in banks the user does not otherwise hold
+    if c.emptied > 0 {
+        let held: Vec<usize> = read_macct(&w.vm, &acct).map(|a| a.lending_account.balances.iter().filter(|b| b.active != 0).filter_map(|b| w.bank_index(&b.bank_pk)).collect()).unwrap_or_default();
+        let free: Vec<usize> = (0..nb).filter(|i| !held.contains(i) && !(stats.inflated && *i == ib)).collect();
+        for bi in free.into_iter().take(c.emptied as usize) {
+            if w.vm.exec(&w.ix_deposit(acct, usr.auth, bi, usr.tokens[bi], 1000, None)).is_ok() {
+                let r = w.vm.exec(&w.ix_withdraw(acct, usr.auth, bi, usr.tokens[bi], 1000, None));
+                if r.is_ok() {
+                    stats.features.push("emptied-open-slot");
+                }
+            }
+        }
     }
     // reduce-only collateral
     for r in &c.reduce_only {
